@@ -60,7 +60,10 @@ type target struct {
 	// (they repeat shards 0..AmpShards-1 of the case list under widened interleavings).
 	Amplify   []string `json:"amplify"`
 	AmpShards tierInt  `json:"amp_shards"`
-	AmpRate   int      `json:"amp_rate"` // yield at about 1 in AmpRate visits (default 6)
+	AmpRate   int      `json:"amp_rate"` // yield at about 1 in AmpRate visits (default 8)
+	// AmpFamilies: the amplified children run only these case families (the concurrent ones; widening
+	// schedules is pointless for sequential histories and slows them down a lot). Empty = all.
+	AmpFamilies []string `json:"amp_families"`
 }
 
 type floor struct {
@@ -202,6 +205,7 @@ func run(id, tier, replay string) int {
 		amp bool
 	}
 	ampInfo := map[string]int64{}
+	buildSecs := map[string]float64{}
 	var bins []built
 	var inconclusive []string
 	for i, t := range cfg.Targets {
@@ -212,7 +216,10 @@ func run(id, tier, replay string) int {
 			continue
 		}
 		bin := filepath.Join(scratch, fmt.Sprintf("t%d.test", i))
-		if msg, err := build(t, bin, scratch, i, nil); err != nil {
+		tb := time.Now()
+		msg, err := build(t, bin, scratch, i, nil)
+		buildSecs["build_s_"+t.Name] = time.Since(tb).Seconds()
+		if err != nil {
 			if t.Optional {
 				inconclusive = append(inconclusive, fmt.Sprintf("target %s did not build (internals renamed?): %s", t.Name, firstLines(msg, 6)))
 				fmt.Printf("INCONCLUSIVE property=%s target=%s build failed\n", id, t.Name)
@@ -225,7 +232,10 @@ func run(id, tier, replay string) int {
 		if len(t.Amplify) > 0 && t.AmpShards.get(tier) > 0 && replay == "" {
 			ov, files, points, skipped := ampOverlay(t.Amplify, filepath.Join(scratch, fmt.Sprintf("amp%d", i)))
 			abin := filepath.Join(scratch, fmt.Sprintf("t%da.test", i))
-			if msg, err := build(t, abin, scratch, i, ov); err != nil {
+			tb := time.Now()
+			msg, err := build(t, abin, scratch, i, ov)
+			buildSecs["build_s_"+t.Name+"_amplified"] = time.Since(tb).Seconds()
+			if err != nil {
 				// the amplified variant is an extra: its failure to build is recorded, never a verdict
 				inconclusive = append(inconclusive, fmt.Sprintf("target %s: amplified variant did not build: %s", t.Name, firstLines(msg, 8)))
 				fmt.Printf("INCONCLUSIVE property=%s target=%s amplified build failed\n", id, t.Name)
@@ -305,9 +315,12 @@ func run(id, tier, replay string) int {
 				if bt.amp {
 					rate := bt.t.AmpRate
 					if rate <= 0 {
-						rate = 6
+						rate = 8
 					}
 					env = append(env, "VERIF_AMP="+strconv.Itoa(rate))
+					if len(bt.t.AmpFamilies) > 0 {
+						env = append(env, "VERIF_FAMILIES="+strings.Join(bt.t.AmpFamilies, ","))
+					}
 				}
 				cmd.Env = env
 				lf, _ := os.Create(r.log)
@@ -582,6 +595,9 @@ func run(id, tier, replay string) int {
 	os.MkdirAll(filepath.Join(outDir, "evidence"), 0o755)
 	if err := os.WriteFile(filepath.Join(outDir, "evidence", id+".json"), eb, 0o644); err != nil {
 		return broken("cannot write evidence: %v", err)
+	}
+	for k, v := range buildSecs {
+		fmt.Printf("  %s %.1f\n", k, v)
 	}
 	fmt.Printf("%s %s seed=%d: evaluations=%d distinct_nontrivial=%d signatures=%d violations=%d known=%d races=%d inconclusive=%d wall=%.1fs\n",
 		id, tier, seed, evaluations, distinct, len(sigs), nViol, len(knownSeen), len(raceKeys), len(inconclusive), time.Since(start).Seconds())
